@@ -532,7 +532,7 @@ Proof.
 Qed.
 
 Lemma wf_len c ls : wfcp c ls -> cp_size c = len ls /\ cp_root c = mroot (leaf_hashes ls).
-Proof. intros [A B]. auto. Qed.
+Proof. intros (A & B & _). auto. Qed.
 
 (* a discarded staging key names the size of a committed, completed tree *)
 Lemma discarded_size h' s' k n root :
